@@ -532,6 +532,7 @@ func genC13(r *Rng, tier string) *World {
 	c.PPT = Pick(r, []float64{0, 0.2})
 	c.PValid = Pick(r, []float64{0.4, 0.7, 0.9})
 	c.Widths = true
+	c.RawStrings = true
 	c.BigInts = true
 	root := GenNode(r, &c, 0, true)
 	// both modes name a field by its `zog` tag (no source tag is involved for a plain map); other tags are dropped here
